@@ -10,6 +10,7 @@ import (
 type Gen struct {
 	r            *RNG
 	proto        bool // ProtoCompatibleArrays is set on the instance the type is for
+	ptrSlices    bool // under proto: also generate fields that are pointers to slices of length-delimited elements
 	noProtoTag   bool // do not attach the proto tag option
 	finiteFloats bool // no NaN / Inf values
 	noNarrowFlat bool // the flat option only on int / int64
@@ -214,6 +215,11 @@ func (g *Gen) fieldType(depth int) fieldChoice {
 		return fieldChoice{m, ""}
 	case 12:
 		if g.proto {
+			if g.ptrSlices {
+				// the pointer is transparent: the field's tag reaches the slice codec, so the slice is in field position
+				// (a pointer to an EMPTY such slice is finding F13)
+				return fieldChoice{Ptr(g.sliceType(depth, true)), ""}
+			}
 			return fieldChoice{g.vtype(), ""}
 		}
 		return fieldChoice{Ptr(g.sliceType(depth, false)), ""}
